@@ -476,7 +476,7 @@ func (g *tnGen) members(depth int, top bool, selfName string) []*tnMember {
 				m.body = g.members(depth-1, false, name)
 			}
 			// dotted spelling: exactly one member, an exported namespace
-			if len(m.body) == 1 && m.body[0].k == 'N' && m.body[0].exported && r.Chance(2, 3) && !(g.tame && !tnInstantiated(m.body[0].body)) {
+			if len(m.body) == 1 && m.body[0].k == 'N' && m.body[0].exported && r.Chance(2, 3) {
 				m.body[0].dotted = true
 			}
 			out = append(out, m)
